@@ -8,6 +8,7 @@ import MysticVerif.Proofs.ClosedLoop
 import MysticVerif.Props.C01
 import MysticVerif.Props.C01Ensemble
 import MysticVerif.Props.C05
+import MysticVerif.Props.C04
 
 namespace MysticVerif.SolveProps
 open MysticVerif.Solver MysticVerif.Closed
@@ -34,6 +35,14 @@ theorem solve_state_is_open_loop (a : Alg S) (fuel : Nat) (c : Ctl) (s : S) :
     (solve a fuel c s 0 0).st = iterate a (solve a fuel c s 0 0).iters s 0 := by
   have := (Closed.solve_is_iterate a fuel c s 0 0).2
   simpa using this
+
+
+/-- **C04, the evaluation counter IS the number of calls made to the user's cost**: for every algorithm whose step
+only appends to its evaluation log, after `Solve` the counter has grown by exactly the number of records appended -/
+theorem solve_evaluations_are_the_log (a : Alg S) (hmono : ∀ s k, a.nlog s ≤ a.nlog (a.step s k))
+    (fuel : Nat) (c : Ctl) (s : S) :
+    (solve a fuel c s 0 0).ctl.evals + a.nlog s = c.evals + a.nlog (solve a fuel c s 0 0).st :=
+  Closed.solve_evals_eq_log a hmono fuel c s 0 0
 
 section DE
 variable {R : Type} [Add R] [Sub R] [Mul R] [Div R] [Neg R] [LinearOrder R] [BEq R] [OfNat R 0] [OfNat R 2]
@@ -67,6 +76,34 @@ theorem solve_de_best (two : Bool) (o : Obj (List R) R) (h : Hyp o) (cond : Term
     s.bestE = o.add (o.raw s.best) (o.pen s.best) ∧ (s.best, o.raw s.best) ∈ s.log ∧ o.K s.best = s.best ∧
       (o.useRange = true → o.inBox s.best = true) :=
   (solve_de_inv two o h cond pop0 x0 trialss fuel c).best hfin
+
+theorem deAlg_nlog_mono (two : Bool) (o : Obj (List R) R) (cond : Term.Cond R) (pop0 : List (List R))
+    (trialss : List (List (List R))) (s : DE (List R) R) (k : Nat) :
+    (deAlg two o cond pop0 trialss).nlog s ≤ (deAlg two o cond pop0 trialss).nlog ((deAlg two o cond pop0 trialss).step s k) := by
+  simp only [deAlg]
+  have key : ∀ ts, s.log.length ≤ (DE.step1 o ts s).log.length := by
+    intro ts
+    unfold DE.step1
+    simp only
+    exact (C04.de_log_prefix o ts 0 s).length_le
+  cases two
+  · simpa using key _
+  · simp only [if_true]
+    rw [DE.step2_eq_step1]
+    exact key _
+
+/-- **differential evolution (1 and 2), whole `Solve()` runs**: `evaluations` = number of records in the evaluation
+monitor = number of calls made to the user's cost, whatever the termination condition, limits and trial vectors -/
+theorem solve_de_evaluations (two : Bool) (o : Obj (List R) R) (cond : Term.Cond R) (pop0 : List (List R))
+    (x0 : List R) (trialss : List (List (List R))) (fuel : Nat) (c : Ctl) (hc : c.evals = 0) :
+    (solve (deAlg two o cond pop0 trialss) fuel c (DE.init o pop0 x0) 0 0).ctl.evals
+      = (solve (deAlg two o cond pop0 trialss) fuel c (DE.init o pop0 x0) 0 0).st.log.length := by
+  have h := solve_evaluations_are_the_log (deAlg two o cond pop0 trialss)
+    (fun s k => deAlg_nlog_mono two o cond pop0 trialss s k) fuel c (DE.init o pop0 x0)
+  have hn : ∀ s, (deAlg two o cond pop0 trialss).nlog s = s.log.length := fun _ => rfl
+  have hl : (DE.init o pop0 x0).log.length = 0 := rfl
+  rw [hn, hn, hl, hc] at h
+  omega
 
 end DE
 
